@@ -130,7 +130,12 @@ class Engine:
                 if isinstance(n, ast.Assign):
                     for t in n.targets:
                         if isinstance(t, ast.Attribute) and isinstance(t.value, ast.Name) and t.value.id in self.prog.classes:
-                            out.append(f"{m.relpath}:{n.lineno} assignment to class attribute {t.value.id}.{t.attr}")
+                            # re-binding a *method* (or binding a function) changes call resolution; class-level data is state,
+                            # which the effect analysis tracks as a root of its own (A-EFFECT `@class.<Name>`)
+                            is_method = any(t.attr in c.methods for c in self.prog.classes.values())
+                            is_func = isinstance(n.value, ast.Lambda) or (isinstance(n.value, ast.Name) and self.prog.resolve_name(m, n.value.id).__class__.__name__ == "FuncInfo")
+                            if is_method or is_func:
+                                out.append(f"{m.relpath}:{n.lineno} assignment to class attribute {t.value.id}.{t.attr}")
         return out
 
     # ------------------------------------------------------------------ scope helpers
